@@ -46,6 +46,32 @@ def waived_then_violation(rng):
     return ("waived-first", sg, graph_from_triples(data))
 
 
+def nested_waived_then_unwaived(rng):
+    """S -> sh:property P (Warning/Info) whose own constraint fails and which forwards an unwaived result of Q:
+    a nested abort after P's first failing constraint would hide Q's result from the top-level verdict (fixed defect)"""
+    from rdflib import Graph, Literal
+    from rdflib.namespace import RDF
+    from common import EX, NODES, PREDS
+    sg = Graph()
+    data = shapegen.gen_data(rng, n=rng.choice((6, 12)), literal_bias=0.3)
+    s, p, q = EX.NS, EX.NP, EX.NQ
+    sg.add((s, RDF.type, SH.NodeShape))
+    for f in rng.sample(NODES, 3):
+        sg.add((s, SH.targetNode, f))
+    sg.add((s, SH.property, p))
+    sg.add((p, RDF.type, SH.PropertyShape)); sg.add((p, SH.path, rng.choice(PREDS)))
+    sg.add((p, SH.severity, rng.choice([SH.Warning, SH.Info])))
+    items = [lambda: sg.add((p, SH.datatype, EX.dt)), lambda: sg.add((p, SH.property, q))]
+    rng.shuffle(items)
+    for it in items:
+        it()
+    sg.add((q, RDF.type, SH.PropertyShape)); sg.add((q, SH.path, rng.choice(PREDS)))
+    sg.add((q, SH.minCount, Literal(rng.choice((1, 7)))))
+    if rng.random() < 0.5:
+        sg.add((q, SH.severity, rng.choice([SH.Violation, SH.Warning, EX.Custom])))
+    return ("nested-waived-then-unwaived", sg, graph_from_triples(data))
+
+
 def run(ctx, out):
     rng = random.Random(ctx.seed * 49979687 + 12)
     quick = ctx.tier == "quick"
@@ -58,6 +84,7 @@ def run(ctx, out):
         cases.append(("core", gen.g, graph_from_triples(data)))
     for _ in range(60 if quick else 800):
         cases.append(waived_then_violation(rng))
+        cases.append(nested_waived_then_unwaived(rng))
     out.rule = ("multi-shape, multi-constraint and nested inputs x abort_on_first {off,on} x the 4 severity option combinations; "
                 "non-trivial = distinct non-conforming case whose abort run reports fewer results than the complete run")
     lines = []
